@@ -21,6 +21,7 @@ impl AtomicOrdering {
 #[verifier::external_body] pub fn nondet_u64() -> u64 { unimplemented!() }
 #[verifier::external_body] pub fn nondet_usize() -> usize { unimplemented!() }
 #[verifier::external_body] pub fn nondet<T>() -> T { unimplemented!() }
+#[verifier::external_body] pub fn nondet_ghost_int() -> Ghost<int> { unimplemented!() }
 /// R10: `Clone` on data values is faithful.
 #[verifier::external_body] pub fn clone_val<T>(x: &T) -> (r: T) ensures r == *x { unimplemented!() }
 /// R3: `Arc::clone` yields an alias of the same object (handles are `Copy` tokens here).
@@ -130,5 +131,8 @@ pub trait Handle<GG, M> {
     type CC;
     spec fn gate(&self, k: int, h: Self::HH, g: GG, c: Self::CC, m: M) -> bool;
     spec fn post(&self, g: GG, m: M) -> GG;
-    spec fn needs_inv(&self, g: GG, m: M) -> bool;
+    /// does the peer re-enter during this call, so that invariant part `p` must hold in the `post` state?
+    spec fn needs_inv(&self, g: GG, m: M, p: int) -> bool;
+    /// any further side condition of the call (operator-specific), asserted separately at every call site
+    spec fn extra(&self, h: Self::HH, g: GG, c: Self::CC, m: M) -> bool;
 }
